@@ -156,3 +156,48 @@ Definition unmarshal (T : tparams) (Hd : hasher) (json_ok : string -> bool)
   em <- unmarshal_entries Hd h (w_entries w) [] [] ;;
   t' <- (if add_to_mt then merklize_entries T Hd t (fst em) else Ok t) ;;
   Ok (mkmzx (mkmz (snd em) t' h) (w_src w) (w_compacted w) (w_safe w)).
+
+(* ---------- the restore entry points ---------- *)
+(* Options given to a restore: WithHasher, WithMerkleTree, WithDocumentLoader.  The
+   document loader is an opaque identity (L): the Merklizer only stores it and hands it to
+   the JSON-LD processor (ResolveDocPath, Options()). *)
+Record ropts (L : Type) := mkropts {
+  o_hasher : option hasher;
+  o_tree : option tree;
+  o_loader : option L
+}.
+Arguments mkropts {L} _ _ _.
+Arguments o_hasher {L} _.
+Arguments o_tree {L} _.
+Arguments o_loader {L} _.
+
+(* a restored merklizer together with its documentLoader field (nil = none configured) *)
+Definition restored (L : Type) := (mzx * option L)%type.
+
+(* MerklizerFromBytes(in, opts...): `mz := &Merklizer{safeMode: true, hasher: defaultHasher}`,
+   options applied on top, then mz.UnmarshalBinary(in); the loader option stays in the object *)
+Definition from_bytes {L} (T : tparams) (Hd : hasher) (json_ok : string -> bool) (o : ropts L)
+           (inlen : Z) (w : wire) : res (restored L) :=
+  let preset := Some (hasher_or Hd (o_hasher o)) in
+  x <- unmarshal T Hd json_ok preset (o_tree o) inlen w ;;
+  Ok (x, o_loader o).
+
+(* `var mz merklize.Merklizer; mz.UnmarshalBinary(in)`: every field nil; this is also what
+   encoding/gob does when it decodes into a Merklizer (it calls UnmarshalBinary on the value
+   it was handed) *)
+Definition unmarshal_zero {L} (T : tparams) (Hd : hasher) (json_ok : string -> bool)
+           (inlen : Z) (w : wire) : res (restored L) :=
+  x <- unmarshal T Hd json_ok None None inlen w ;;
+  Ok (x, None).
+Definition gob_decode {L} := @unmarshal_zero L.
+
+(* Merklizer.getDocumentLoader: the configured loader, else the package default AT THE TIME
+   OF THE CALL (ipfs options are not modelled) *)
+Definition effective_loader {L} (default_loader : L) (r : restored L) : L :=
+  match snd r with Some l => l | None => default_loader end.
+
+(* the observation set of a restored merklizer that does not need the tree theory:
+   Hasher(), MkValue(v).MtEntry(), Options() hasher, the loader ResolveDocPath will use *)
+Definition r_hasher {L} (r : restored L) : hasher := mz_hasher (x_mz (fst r)).
+Definition r_mk_value {L} (r : restored L) (v : xval) : res Z :=
+  x <- mz_mk_value (x_mz (fst r)) v ;; value_mt_entry x.
